@@ -40,6 +40,8 @@ def run(ctx):
              'same under every chunk schedule')
     rep.rule('R1.5', 'tail windows (EndCaptureRegion) are registered before '
              'streaming starts')
+    rep.rule('R1.9', 'a new inspector starts from the same state whatever '
+             'was inspected before it (no state shared between instances)')
     rep.rule('R1.8', 'per image and schedule: no region is defined at an '
              'offset lying before the start of the chunk being processed '
              '(its bytes went by in earlier chunks; one big chunk still '
@@ -270,7 +272,7 @@ def _schedules(ctx):
         groups.setdefault(key, {})[sched] = res
     diffs, und, n_ok = {}, {}, {}
     seen_classes = set()
-    geometry, tails, behind = {}, {}, {}
+    geometry, tails, behind, stale = {}, {}, {}, {}
     for key, by in sorted(groups.items()):
         fmt, label = meta[key]
         cls_key = _class_of(fmt, label)
@@ -294,6 +296,9 @@ def _schedules(ctx):
                 if g and g[0] == 'unevaluable':
                     continue
             _geometry(fmt, label, res, geometry, tails, behind, sched)
+            fb, fa = res.get('fresh_before'), res.get('fresh_after')
+            if fb is not None and fa is not None and fb != fa:
+                stale.setdefault(fmt, (label, sched, fb, fa))
         errs = set(v[4] for v in verdicts.values())
         if errs == {'ImageFormatError'}:
             # the inspector itself refused the stream, in every schedule
@@ -330,6 +335,15 @@ def _schedules(ctx):
         rep.check('R1.6', 'region geometry', True, 'every region defined '
                   'while streaming starts at or after the end of the '
                   'regions present when it was defined')
+    for fmt in FORMATS:
+        d = stale.get(fmt)
+        rep.check('R1.9', 'fresh inspector[%s]' % fmt, d is None,
+                  'a new inspector reports the same initial state before '
+                  'and after another stream was inspected' if d is None else
+                  'after image %r (schedule %s) a NEW inspector reports %s '
+                  'instead of %s before seeing any data: state is shared '
+                  'between instances' % (d[0], d[1], str(d[3])[:200],
+                                         str(d[2])[:200]))
     for k, (label, detail) in sorted(behind.items()):
         rep.check('R1.8', k, False, 'image %r: %s' % (label, detail),
                   case={'image': label})
